@@ -2,7 +2,8 @@
     The model processes one request completely before the next; FIFO delivery of requests and
     the single-threaded loop are runtime facts outside the model (PARTIAL for concurrent clients:
     the correspondence runs drive one client, and two clients at once whose replies must admit an order). *)
-From ID Require Import Model.Actor Proofs.ActorFacts Proofs.HandleFacts.
+From ID Require Import Model.Actor Proofs.ActorFacts Proofs.HandleFacts Proofs.FsPutFacts Proofs.ReachFacts Proofs.AckFacts.
+From ID Require Import Model.Entry Model.Tables Model.StoreOps.
 
 Theorem C14_closed_ops_fail_noop : forall ks EH MF CAP mss split s o ns,
   op_needs_open o = Some ns -> aget s ns = None ->
@@ -58,6 +59,22 @@ Theorem C14_history_counter : forall ks EH MF CAP mss split T ops,
             (aget s' x = None <-> hcount_from (fun _ => 0) tr x = 0).
 Proof. exact history_counter. Qed.
 
+(** shutdown hands back a store containing every acknowledged write: for every history of requests
+    (all 22 kinds, any documents, well-formed ids and keys) on any well-formed store, each acknowledged
+    local insert, deletion or remote insert is in the final tables -- the entry itself or one that
+    superseded it ([rel d e]) -- unless a later acknowledged drop removed its document *)
+Theorem C14_acked_writes_in_final_store : forall EH MF CAP mss split T ops, SInv T -> Forall wf_aop ops ->
+  let '(s', tr) := arun prefix_succ EH MF CAP mss split (ainit T) ops in
+  forall tr1 o r tr2 e, tr = tr1 ++ (o, r) :: tr2 -> acked EH o r = Some e ->
+    (exists d, In d (recs (a_tables s')) /\ rel d e = true) \/ In (ADrop (e_ns e), AOk) tr2.
+Proof. exact shutdown_store_has_acked_writes. Qed.
+(** the hypothesis is met by the empty store and kept by every request *)
+Theorem C14_store_invariant_kept : forall EH MF CAP mss split s o, SInv (a_tables s) -> wf_aop o ->
+  let '(s', r, _) := astep prefix_succ EH MF CAP mss split s o in result3 EH s o s' r.
+Proof. exact step_covered. Qed.
+Example C14_empty_store_well_formed : SInv empty_tables.
+Proof. exact SInv_empty. Qed.
+
 Print Assumptions C14_closed_ops_fail_noop.
 Print Assumptions C14_sync_gate.
 Print Assumptions C14_open_adds_handle_sync_sticky.
@@ -66,3 +83,6 @@ Print Assumptions C14_open_unknown_fails.
 Print Assumptions C14_close_reports_closed.
 Print Assumptions C14_step_counts.
 Print Assumptions C14_history_counter.
+Print Assumptions C14_acked_writes_in_final_store.
+Print Assumptions C14_store_invariant_kept.
+Print Assumptions C14_empty_store_well_formed.
